@@ -5,6 +5,7 @@ import (
 	"context"
 	"encoding/binary"
 	"encoding/hex"
+	"errors"
 	"fmt"
 	"io"
 	"math/big"
@@ -288,6 +289,13 @@ func (w *sworld) deliver(n string) {
 }
 
 // around wraps a receive operation: tracks the cleartext consumed before digests freeze.
+// NOTE (known fragility, not fixable from outside the library): the cleartext the stream fed to its
+// receive digest is inferred from how many raw bytes left the connection buffer. That is exact as long
+// as Stream reads precisely header+payload per frame (io.ReadFull on the conn, as today). If Stream
+// ever gains read-ahead buffering (bufio), `consumed` would include bytes of frames not yet processed
+// and the reference digests (refcodec.Digest(e.clearRecv…)) would diverge from the stream's: every
+// first protected frame would then be reported UNOPENABLE although the library is right. The remedy
+// then is to feed exactly one frame per receive call (deliver frame by frame) instead of the backlog.
 func (w *sworld) around(n string, f func(e *sep) (string, error)) error {
 	w.deliver(n)
 	e := w.ep(n)
@@ -401,14 +409,31 @@ func (w *sworld) read(n string, k int) ([]byte, error) {
 	d := buf[:got]
 	op := fmt.Sprintf("read %s %d", n, k)
 	if err != nil {
-		w.log(op, "err "+errClass(err))
-		if err != io.EOF { // bare io.EOF = end of the current message, not a broken stream
+		// ReadMessageBytes never touches the connection: an error that IS io.EOF (bare today; wrapped
+		// with %w would be the same thing to every caller using errors.Is) means "end of the current
+		// message", not a broken stream
+		if isEOM(err) {
+			w.log(op, "err eom")
+		} else {
+			w.log(op, "err "+errClass(err))
 			w.dead = true
 		}
 	} else {
 		w.log(op, "ok "+orc.ShowBytes(d))
 	}
 	return d, err
+}
+
+// isEOM: the error ReadMessageBytes uses for "no more bytes in this message"
+func isEOM(err error) bool { return errors.Is(err, io.EOF) }
+
+// errKind is errClass without any error TEXT (unknown wording -> "other"): for violation keys.
+func errKind(err error) string {
+	c := errClass(err)
+	if strings.HasPrefix(c, "other:") {
+		return "other"
+	}
+	return c
 }
 
 func (w *sworld) endread(n string) error {
